@@ -118,7 +118,8 @@ Proof.
       * simpl andb. cbv iota.
         rewrite fwd_mkst by (unfold hexrun; apply run_le).
         cbv beta iota. rewrite orelse_done. unfold set_cap. cbn [pre suf pos caps].
-        f_equal. f_equal; [lia|]. repeat f_equal; lia.
+        replace (S (S p) + hexrun t) with (p + (2 + hexrun t)) by lia.
+        replace (S p) with (p + 1) by lia. reflexivity.
       * simpl andb. cbv iota. rewrite orelse_fail.
         (* second alternative *)
         rewrite m_Alt, m_Grp, m_Cat, m_Chr. cbn [suf pos].
@@ -128,11 +129,12 @@ Proof.
            cbn [suf]. fold (blankrun t). replace (0 <=? blankrun t) with true by reflexivity.
            rewrite fwd_mkst by (unfold blankrun; apply run_le).
            cbv beta iota. rewrite orelse_done. unfold set_cap. cbn [pre suf pos caps].
-           f_equal. f_equal; [lia|]. repeat f_equal; lia.
+           replace (S (S p) + blankrun t) with (p + (2 + blankrun t)) by lia.
+           replace (S p) with (p + 1) by lia. reflexivity.
         -- rewrite orelse_fail, m_Grp, m_Chr. cbn [suf pos].
            destruct (chr_ok true X d); [|reflexivity].
            unfold advance, set_cap. cbn [pre suf pos caps].
-           f_equal. f_equal; [lia|]. repeat f_equal; lia.
+           replace (S (S p)) with (p + 2) by lia. replace (S p) with (p + 1) by lia. reflexivity.
     + simpl andb. cbv iota. rewrite orelse_fail.
       rewrite m_Alt, m_Grp, m_Cat, m_Chr. cbn [suf pos].
       destruct (chr_ok false NL d) eqn:EN.
@@ -141,22 +143,362 @@ Proof.
         cbn [suf]. fold (blankrun t). replace (0 <=? blankrun t) with true by reflexivity.
         rewrite fwd_mkst by (unfold blankrun; apply run_le).
         cbv beta iota. rewrite orelse_done. unfold set_cap. cbn [pre suf pos caps].
-        f_equal. f_equal; [lia|]. repeat f_equal; lia.
+        replace (S (S p) + blankrun t) with (p + (2 + blankrun t)) by lia.
+        replace (S p) with (p + 1) by lia. reflexivity.
       * rewrite orelse_fail, m_Grp, m_Chr. cbn [suf pos].
         destruct (chr_ok true X d); [|reflexivity].
         unfold advance, set_cap. cbn [pre suf pos caps].
-        f_equal. f_equal; [lia|]. repeat f_equal; lia.
+        replace (S (S p)) with (p + 2) by lia. replace (S p) with (p + 1) by lia. reflexivity.
 Qed.
 
 Lemma props_here_len : forall sf n cf, props_here sf = Some (n, cf) -> 0 < n /\ n <= length sf.
 Proof.
-  intros sf n cf H. destruct sf as [|c [|d t]]; try discriminate.
-  unfold props_here in H. destruct (is_bs c); [|discriminate].
-  pose proof (run_le false H0 (Some 4) t). pose proof (run_le false B None t).
+  intros sf n cf Hh. destruct sf as [|c [|d t]]; try discriminate.
+  unfold props_here in Hh. destruct (is_bs c); [|discriminate].
+  pose proof (run_le false H (Some 4) t). pose proof (run_le false B None t).
   destruct (chr_ok false U d && (1 <=? hexrun t)).
-  - inversion H; subst. unfold hexrun. simpl. lia.
+  - inversion Hh; subst. unfold hexrun. simpl. lia.
   - destruct (chr_ok false NL d).
-    + inversion H; subst. unfold blankrun. simpl. lia.
-    + destruct (chr_ok true X d); inversion H; subst. simpl. lia.
+    + inversion Hh; subst. unfold blankrun. simpl. lia.
+    + destruct (chr_ok true X d); inversion Hh; subst. simpl. lia.
 Qed.
 End Attempt.
+
+(* ---- the callback ------------------------------------------------------------------- *)
+Definition here_g : str -> option (nat * capsf) := props_here ucls hexcls nlcls blankcls notcls.
+
+Definition single_value (c : N) : N :=
+  match lookup c known_escapes with Some v => v | None => c end.
+
+(* what unescape(m) returns, from the text at the match *)
+Definition props_repl (sf : str) : result str :=
+  match sf with
+  | c :: d :: t =>
+      if chr_ok false ucls d && (1 <=? hexrun hexcls t) then
+        match py_int uni_base (firstn (hexrun hexcls t) t) with
+        | Ok n => py_chr n
+        | Raise e => Raise e
+        end
+      else if chr_ok false nlcls d then Ok []
+      else Ok [single_value d]
+  | _ => Raise TypeError
+  end.
+
+Lemma slice_cons2 : forall (a : str) c d t j,
+  slice (a ++ c :: d :: t) (length a + 1) (length a + S (S j)) = d :: firstn j t.
+Proof.
+  intros. rewrite slice_app. unfold slice. simpl skipn.
+  replace (S (S j) - 1) with (S j) by lia. reflexivity.
+Qed.
+
+Lemma props_f_ok : forall a sf n cf, here_g sf = Some (n, cf) ->
+  props_unescape (a ++ sf) (mkres (length a) (length a + n) (cf (length a))) = props_repl sf.
+Proof.
+  intros a sf n cf Hh. destruct sf as [|c [|d t]]; try discriminate.
+  unfold here_g, props_here in Hh. destruct (is_bs c); [|discriminate].
+  destruct group_numbers as [G2 [G3 G4]].
+  unfold props_unescape, group_text, group, props_repl. rewrite G2, G3, G4. cbn [m_caps].
+  destruct (chr_ok false ucls d && (1 <=? hexrun hexcls t)) eqn:E1.
+  - inversion Hh; subst n cf. simpl get_cap. unfold span_text. cbn [fst snd].
+    rewrite slice_cons2. reflexivity.
+  - destruct (chr_ok false nlcls d) eqn:E2.
+    + inversion Hh; subst n cf. simpl get_cap. unfold span_text. cbn [fst snd].
+      rewrite slice_cons2. reflexivity.
+    + destruct (chr_ok true notcls d); [|discriminate].
+      inversion Hh; subst n cf. simpl get_cap. unfold span_text. cbn [fst snd].
+      rewrite slice_cons2. reflexivity.
+Qed.
+
+Theorem props_val_scan : forall raw,
+  props_val raw = loc_spec here_g props_repl (S (length raw)) raw.
+Proof.
+  intros raw. unfold props_val. rewrite props_escape_shape.
+  apply (rsub_with_loc (props_shape ucls hexcls nlcls blankcls notcls) here_g
+           (props_here_ok ucls hexcls nlcls blankcls notcls)
+           (props_here_len ucls hexcls nlcls blankcls notcls)
+           props_unescape props_repl props_f_ok).
+Qed.
+
+(* ---- the classes of the generated expression, in plain terms ------------------------- *)
+Definition is_hex (c : N) : bool :=
+  (N.leb 48 c && N.leb c 57) || (N.leb 97 c && N.leb c 102) || (N.leb 65 c && N.leb c 70).
+Definition is_blank (c : N) : bool := N.eqb c 32 || N.eqb c 9.
+
+Lemma single_class : forall a c, chr_ok false [(a, a)] c = N.eqb c a.
+Proof.
+  intros a c. unfold chr_ok, in_ranges. simpl. rewrite orb_false_r.
+  destruct (N.eqb_spec c a) as [->|Hne].
+  - rewrite N.leb_refl. reflexivity.
+  - destruct (N.leb_spec a c); destruct (N.leb_spec c a); simpl; try reflexivity. lia.
+Qed.
+
+Lemma ucls_spec : forall c, chr_ok false ucls c = N.eqb c 117.
+Proof. intros c. change ucls with [(117, 117)%N]. apply single_class. Qed.
+Lemma nlcls_spec : forall c, chr_ok false nlcls c = N.eqb c 10.
+Proof. intros c. change nlcls with [(10, 10)%N]. apply single_class. Qed.
+Lemma notcls_spec : forall c, chr_ok true notcls c = negb (N.eqb c 10).
+Proof.
+  intros c. change notcls with [(10, 10)%N].
+  pose proof (single_class 10 c) as Hs. unfold chr_ok in *.
+  destruct (in_ranges c [(10, 10)%N]); simpl in *; rewrite <- Hs; reflexivity.
+Qed.
+Lemma hexcls_spec : forall c, chr_ok false hexcls c = is_hex c.
+Proof.
+  intros c. change hexcls with [(48, 57); (97, 102); (65, 70)]%N.
+  unfold chr_ok, in_ranges, is_hex. simpl. rewrite orb_false_r, orb_assoc.
+  match goal with |- (if ?b then true else false) = _ => destruct b; reflexivity end.
+Qed.
+Lemma blankcls_spec : forall c, chr_ok false blankcls c = is_blank c.
+Proof.
+  intros c. change blankcls with [(32, 32); (9, 9)]%N.
+  pose proof (single_class 32 c) as H1. pose proof (single_class 9 c) as H2.
+  unfold chr_ok, in_ranges, is_blank in *. simpl in *. rewrite orb_false_r in *.
+  rewrite <- H1, <- H2.
+  destruct ((32 <=? c)%N && (c <=? 32)%N); destruct ((9 <=? c)%N && (c <=? 9)%N); reflexivity.
+Qed.
+
+(* ---- runs over a known prefix -------------------------------------------------------- *)
+Definition head_is (ok : N -> bool) (l : str) : bool :=
+  match l with c :: _ => ok c | [] => false end.
+
+Lemma run_exact_bounded : forall cls ds rest b,
+  forallb (chr_ok false cls) ds = true -> length ds <= b ->
+  (length ds = b \/ head_is (chr_ok false cls) rest = false) ->
+  run false cls (Some b) (ds ++ rest) = length ds.
+Proof.
+  intros cls. induction ds as [|d ds IH]; intros rest b Hall Hb Hend.
+  - simpl app. simpl length. destruct rest as [|c r]; [reflexivity|].
+    unfold run. destruct b as [|b]; [reflexivity|].
+    destruct Hend as [Hend|Hend]; [simpl in Hend; lia|]. simpl in Hend. rewrite Hend. reflexivity.
+  - simpl in Hall. apply andb_true_iff in Hall. destruct Hall as [Hd Hall].
+    destruct b as [|b]; [simpl in Hb; lia|].
+    simpl app. unfold run. fold run. rewrite Hd. simpl length. f_equal.
+    apply IH; auto; [simpl in Hb; lia|]. destruct Hend as [Hend|Hend]; [left; simpl in Hend; lia|right; exact Hend].
+Qed.
+
+Lemma run_exact_unbounded : forall cls ds rest,
+  forallb (chr_ok false cls) ds = true -> head_is (chr_ok false cls) rest = false ->
+  run false cls None (ds ++ rest) = length ds.
+Proof.
+  intros cls. induction ds as [|d ds IH]; intros rest Hall Hend.
+  - simpl app. simpl length. destruct rest as [|c r]; [reflexivity|].
+    unfold run. simpl in Hend. rewrite Hend. reflexivity.
+  - simpl in Hall. apply andb_true_iff in Hall. destruct Hall as [Hd Hall].
+    simpl app. unfold run. fold run. rewrite Hd. simpl length. f_equal. apply IH; auto.
+Qed.
+
+(* ---- hexadecimal numerals --------------------------------------------------------------- *)
+Definition digit_value (c : N) : N :=
+  if N.leb c 57 then (c - 48)%N else if N.leb c 70 then (c - 55)%N else (c - 87)%N.
+Definition hex_value (ds : str) : N := fold_left (fun acc d => (acc * 16 + digit_value d)%N) ds 0%N.
+
+Lemma hex_digit_value : forall c, is_hex c = true ->
+  hex_digit c = Some (digit_value c) /\ (digit_value c < 16)%N.
+Proof.
+  intros c Hc. unfold is_hex in Hc. unfold hex_digit, digit_value.
+  destruct (N.leb_spec 48 c); destruct (N.leb_spec c 57); destruct (N.leb_spec 97 c);
+    destruct (N.leb_spec c 102); destruct (N.leb_spec 65 c); destruct (N.leb_spec c 70);
+    simpl in *; try discriminate; split; try reflexivity; try lia.
+Qed.
+
+Lemma int_digits_hex : forall ds acc, forallb is_hex ds = true ->
+  int_digits 16 acc ds = Ok (fold_left (fun a d => (a * 16 + digit_value d)%N) ds acc).
+Proof.
+  induction ds as [|d ds IH]; intros acc H; [reflexivity|].
+  simpl in H. apply andb_true_iff in H. destruct H as [Hd H].
+  destruct (hex_digit_value d Hd) as [E1 E2]. simpl. rewrite E1.
+  destruct (N.ltb_spec (digit_value d) 16); [|lia]. apply IH. exact H.
+Qed.
+
+Lemma hex_value_bound : forall ds, forallb is_hex ds = true -> length ds <= 4 ->
+  (hex_value ds < 65536)%N.
+Proof.
+  intros ds H L. unfold hex_value.
+  destruct ds as [|a [|b [|c [|d [|e ds]]]]]; simpl in L; try lia; simpl in *;
+    repeat match goal with
+           | Hx : _ && _ = true |- _ => apply andb_true_iff in Hx; destruct Hx
+           | Hx : is_hex _ = true |- _ => apply hex_digit_value in Hx; destruct Hx as [_ Hx]
+           end; lia.
+Qed.
+
+(* ---- the token grammar of a raw value and its meaning ------------------------------------- *)
+Inductive ptok :=
+| TPlain (c : N)               (* any character but a backslash *)
+| TUni (ds : list N)           (* backslash u and 1 to 4 hexadecimal digits *)
+| TCont (ind : list N)         (* backslash, newline, indentation: a line continuation *)
+| TSingle (c : N).             (* backslash and any character but newline *)
+
+Definition tok_ok (t : ptok) : bool :=
+  match t with
+  | TPlain c => negb (N.eqb c 92)
+  | TUni ds => (1 <=? length ds) && (length ds <=? 4) && forallb is_hex ds
+  | TCont ind => forallb is_blank ind
+  | TSingle c => negb (N.eqb c 10)
+  end.
+
+Definition render_tok (t : ptok) : str :=
+  match t with
+  | TPlain c => [c]
+  | TUni ds => 92%N :: 117%N :: ds
+  | TCont ind => 92%N :: 10%N :: ind
+  | TSingle c => [92%N; c]
+  end.
+
+(* n r t stand for newline, carriage return, tab; every other character for itself *)
+Definition single_meaning (c : N) : N :=
+  if N.eqb c 110 then 10%N else if N.eqb c 114 then 13%N else if N.eqb c 116 then 9%N else c.
+
+Definition meaning_tok (t : ptok) : str :=
+  match t with
+  | TPlain c => [c]
+  | TUni ds => [hex_value ds]
+  | TCont _ => []
+  | TSingle c => [single_meaning c]
+  end.
+
+Definition render_toks (ts : list ptok) : str := concat (map render_tok ts).
+Definition meaning_toks (ts : list ptok) : str := concat (map meaning_tok ts).
+
+(* what may follow a token: a short \u escape (and a bare \u) is not followed by a
+   hexadecimal digit, a continuation's indentation is maximal *)
+Definition follows_ok (t : ptok) (rest : str) : bool :=
+  match t with
+  | TPlain _ => true
+  | TUni ds => Nat.eqb (length ds) 4 || negb (head_is is_hex rest)
+  | TCont _ => negb (head_is is_blank rest)
+  | TSingle c => negb (N.eqb c 117) || negb (head_is is_hex rest)
+  end.
+
+Fixpoint toks_ok (ts : list ptok) : bool :=
+  match ts with
+  | [] => true
+  | t :: rest => tok_ok t && follows_ok t (render_toks rest) && toks_ok rest
+  end.
+
+Lemma single_value_meaning : forall c, single_value c = single_meaning c.
+Proof.
+  intros c. unfold single_value, single_meaning.
+  change known_escapes with [(110, 10); (114, 13); (116, 9); (92, 92)]%N. simpl.
+  destruct (N.eqb c 110); [reflexivity|]. destruct (N.eqb c 114); [reflexivity|].
+  destruct (N.eqb c 116); [reflexivity|].
+  destruct (N.eqb_spec c 92) as [->|_]; reflexivity.
+Qed.
+
+Lemma head_is_ext : forall f g l, (forall c, f c = g c) -> head_is f l = head_is g l.
+Proof. intros f g l H. destruct l; simpl; auto. Qed.
+
+Lemma forallb_ext' : forall (f g : N -> bool) l, (forall c, f c = g c) -> forallb f l = forallb g l.
+Proof. intros f g l H. induction l; simpl; [reflexivity|]. rewrite H, IHl. reflexivity. Qed.
+
+(* one step of the scan *)
+Lemma scan_plain : forall c rest fu, c <> 92%N ->
+  loc_spec here_g props_repl (S fu) (c :: rest) =
+  match loc_spec here_g props_repl fu rest with Ok tl => Ok (c :: tl) | Raise e => Raise e end.
+Proof.
+  intros c rest fu Hc. cbn [loc_spec].
+  assert (Hh : here_g (c :: rest) = None).
+  { unfold here_g, props_here. destruct rest; [reflexivity|]. rewrite (is_bs_neq c Hc). reflexivity. }
+  rewrite Hh. reflexivity.
+Qed.
+
+Lemma scan_hit : forall sf fu n cf r, here_g sf = Some (n, cf) -> props_repl sf = Ok r ->
+  loc_spec here_g props_repl (S fu) sf =
+  match loc_spec here_g props_repl fu (skipn n sf) with Ok tl => Ok (r ++ tl) | Raise e => Raise e end.
+Proof. intros sf fu n cf r Hh Hr. cbn [loc_spec]. rewrite Hh, Hr. reflexivity. Qed.
+
+Lemma bs92 : is_bs 92 = true.
+Proof. apply is_bs_iff. reflexivity. Qed.
+
+Theorem scan_tokens : forall ts fuel, toks_ok ts = true -> length (render_toks ts) < fuel ->
+  loc_spec here_g props_repl fuel (render_toks ts) = Ok (meaning_toks ts).
+Proof.
+  induction ts as [|t ts IH]; intros fuel Hok Hf.
+  - destruct fuel; [simpl in Hf; lia|]. reflexivity.
+  - simpl in Hok. apply andb_true_iff in Hok. destruct Hok as [Hok Hrest].
+    apply andb_true_iff in Hok. destruct Hok as [Ht Hfol].
+    unfold render_toks, meaning_toks in *. simpl concat. simpl concat in Hf.
+    set (rest := concat (map render_tok ts)) in *.
+    destruct fuel as [|fu]; [lia|].
+    destruct t as [c|ds|ind|c].
+    + (* plain *)
+      simpl in Ht. apply negb_true_iff in Ht. apply N.eqb_neq in Ht.
+      simpl app. rewrite scan_plain by exact Ht.
+      rewrite IH; auto. simpl in Hf. lia.
+    + (* \u + digits *)
+      simpl in Ht. apply andb_true_iff in Ht. destruct Ht as [Ht Hhex].
+      apply andb_true_iff in Ht. destruct Ht as [L1 L4].
+      apply Nat.leb_le in L1, L4.
+      assert (Hall : forallb (chr_ok false hexcls) ds = true)
+        by (rewrite (forallb_ext' _ is_hex); auto; apply hexcls_spec).
+      assert (Hrun : hexrun hexcls (ds ++ rest) = length ds).
+      { apply run_exact_bounded; auto. simpl in Hfol. apply orb_true_iff in Hfol.
+        destruct Hfol as [Hfol|Hfol]; [left; apply Nat.eqb_eq; exact Hfol|right].
+        rewrite (head_is_ext _ is_hex) by apply hexcls_spec.
+        apply negb_true_iff. exact Hfol. }
+      simpl render_tok. simpl app.
+      assert (Hh : here_g (92 :: 117 :: ds ++ rest)%N =
+                   Some (2 + length ds, fun p => [(1, (p + 1, p + (2 + length ds)));
+                                                  (2, (p + 1, p + (2 + length ds)))])).
+      { unfold here_g, props_here. rewrite bs92, ucls_spec, Hrun.
+        replace (1 <=? length ds) with true by (symmetry; apply Nat.leb_le; lia). reflexivity. }
+      assert (Hr : props_repl (92 :: 117 :: ds ++ rest)%N = Ok [hex_value ds]).
+      { unfold props_repl. rewrite ucls_spec, Hrun.
+        replace (1 <=? length ds) with true by (symmetry; apply Nat.leb_le; lia).
+        simpl andb. cbv iota.
+        replace (firstn (length ds) (ds ++ rest)) with ds
+          by (rewrite firstn_app, Nat.sub_diag, firstn_all; simpl; rewrite app_nil_r; reflexivity).
+        unfold py_int. destruct ds as [|d0 ds0]; [simpl in L1; lia|].
+        change uni_base with 16%N. rewrite int_digits_hex by exact Hhex.
+        fold (hex_value (d0 :: ds0)). unfold py_chr.
+        pose proof (hex_value_bound (d0 :: ds0) Hhex L4).
+        destruct (N.ltb_spec (hex_value (d0 :: ds0)) 1114112); [reflexivity|lia]. }
+      rewrite (scan_hit _ fu _ _ _ Hh Hr).
+      replace (skipn (2 + length ds) (92 :: 117 :: ds ++ rest)%N) with rest
+        by (simpl; rewrite skipn_app, skipn_all, Nat.sub_diag; reflexivity).
+      rewrite IH; auto. simpl in Hf. rewrite app_length in Hf. lia.
+    + (* continuation *)
+      simpl in Ht.
+      assert (Hall : forallb (chr_ok false blankcls) ind = true)
+        by (rewrite (forallb_ext' _ is_blank); auto; apply blankcls_spec).
+      assert (Hrun : blankrun blankcls (ind ++ rest) = length ind).
+      { apply run_exact_unbounded; auto.
+        rewrite (head_is_ext _ is_blank) by apply blankcls_spec.
+        simpl in Hfol. apply negb_true_iff. exact Hfol. }
+      simpl render_tok. simpl app.
+      assert (Hh : here_g (92 :: 10 :: ind ++ rest)%N =
+                   Some (2 + length ind, fun p => [(1, (p + 1, p + (2 + length ind)));
+                                                   (3, (p + 1, p + (2 + length ind)))])).
+      { unfold here_g, props_here. rewrite bs92, ucls_spec, nlcls_spec, Hrun. reflexivity. }
+      assert (Hr : props_repl (92 :: 10 :: ind ++ rest)%N = Ok []).
+      { unfold props_repl. rewrite ucls_spec, nlcls_spec. reflexivity. }
+      rewrite (scan_hit _ fu _ _ _ Hh Hr).
+      replace (skipn (2 + length ind) (92 :: 10 :: ind ++ rest)%N) with rest
+        by (simpl; rewrite skipn_app, skipn_all, Nat.sub_diag; reflexivity).
+      rewrite IH; auto. simpl in Hf. rewrite app_length in Hf. lia.
+    + (* backslash + one character *)
+      simpl in Ht. apply negb_true_iff in Ht.
+      simpl render_tok. simpl app.
+      assert (Hu : chr_ok false ucls c && (1 <=? hexrun hexcls rest) = false).
+      { rewrite ucls_spec. simpl in Hfol. apply orb_true_iff in Hfol.
+        destruct Hfol as [Hfol|Hfol].
+        - apply negb_true_iff in Hfol. rewrite Hfol. reflexivity.
+        - assert (Hz : hexrun hexcls rest = 0).
+          { apply negb_true_iff in Hfol.
+            pose proof (run_exact_bounded hexcls [] rest 4 eq_refl) as Hx.
+            simpl in Hx. apply Hx; [lia|]. right.
+            rewrite (head_is_ext _ is_hex) by apply hexcls_spec. exact Hfol. }
+          rewrite Hz. apply andb_false_r. }
+      assert (Hh : here_g (92 :: c :: rest)%N =
+                   Some (2, fun p => [(1, (p + 1, p + 2)); (4, (p + 1, p + 2))])).
+      { unfold here_g, props_here. rewrite bs92, Hu, nlcls_spec, Ht, notcls_spec, Ht. reflexivity. }
+      assert (Hr : props_repl (92 :: c :: rest)%N = Ok [single_meaning c]).
+      { unfold props_repl. rewrite Hu, nlcls_spec, Ht, single_value_meaning. reflexivity. }
+      rewrite (scan_hit _ fu _ _ _ Hh Hr). simpl skipn.
+      rewrite IH; auto. simpl in Hf. lia.
+Qed.
+
+Theorem unescape_properties : forall ts, toks_ok ts = true ->
+  props_val (render_toks ts) = Ok (meaning_toks ts).
+Proof.
+  intros ts H. rewrite props_val_scan. apply scan_tokens; auto.
+Qed.
